@@ -61,11 +61,25 @@ where G: GraphRef + IntoEdges + IntoNodeIdentifiers + Visitable + NodeIndexable 
     let n = |i: i64| g.from_index(i as usize);
     let fd = |d: f64| if d.is_infinite() { INF } else { d as i64 };
     Some(match q.0.as_str() {
-        "bellman_ford" => match algo::bellman_ford(g, n(a[0])) {
-            Err(_) => vec!["err".into()],
-            Ok(p) => vec![line("dist", &p.distances.iter().map(|d| fd(*d)).collect::<Vec<_>>()),
-                          line("pred", &p.predecessors.iter().map(|o| o.map(|x| g.to_index(x) as i64).unwrap_or(-1)).collect::<Vec<_>>())],
-        },
+        "bellman_ford" => {
+            // the f32 instance on a copy of the arcs (an undirected edge shows as two arcs): same Ok/Err, same distances
+            let mut h: petgraph::graph::DiGraph<(), f32> = petgraph::graph::DiGraph::new();
+            for _ in 0..g.node_bound() { h.add_node(()); }
+            for x in g.node_identifiers() { for e in g.edges(x) { h.add_edge(petgraph::graph::NodeIndex::new(g.to_index(x)), petgraph::graph::NodeIndex::new(g.to_index(e.target())), *e.weight() as f32); } }
+            let r32 = algo::bellman_ford(&h, petgraph::graph::NodeIndex::new(a[0] as usize));
+            match algo::bellman_ford(g, n(a[0])) {
+                Err(_) => { let mut v = vec!["err".to_string()]; if r32.is_ok() { v.push("f32-twin-mismatch".into()); } v }
+                Ok(p) => {
+                    let mut v = vec![line("dist", &p.distances.iter().map(|d| fd(*d)).collect::<Vec<_>>()),
+                                     line("pred", &p.predecessors.iter().map(|o| o.map(|x| g.to_index(x) as i64).unwrap_or(-1)).collect::<Vec<_>>())];
+                    match r32 {
+                        Ok(q) => { if q.distances.iter().map(|d| if d.is_infinite() { INF } else { *d as i64 }).collect::<Vec<_>>() != p.distances.iter().map(|d| fd(*d)).collect::<Vec<_>>() { v.push("f32-twin-mismatch".into()); } }
+                        Err(_) => v.push("f32-twin-mismatch".into()),
+                    }
+                    v
+                }
+            }
+        }
         "find_negative_cycle" => match algo::find_negative_cycle(g, n(a[0])) {
             None => vec!["none".into()],
             Some(c) => vec![line("cycle", &c.iter().map(|x| g.to_index(*x) as i64).collect::<Vec<_>>())],
